@@ -7,6 +7,9 @@ Driver glue for C07. fields = [kind, kind-specific call sequence / value …]; t
 `<tree tomllib parsed from the bytes libcnb wrote>;rt=<1|0|->` (`rt`: libcnb's own reader returned the value written).
 Family `launchseq` (`build()` inside the call sequence): one such observation per `build()`, joined by ` || `; every
 document is judged on its own against the value the specification intends at that `build()`.
+Family `layerfile` (layers through the public layer APIs): one such observation per distinct layer name in order of first use —
+the file found at `<layers>/<name>.toml` — joined by ` || `, then ` ;; stray=<entries of the layers directory that belong to no
+constructed layer|->`; `err:op<k>:<call>` when a layer API call failed.
 -/
 namespace CnbVerif.DriverC07
 open CnbVerif CnbVerif.Codec CnbVerif.Cnb
@@ -96,6 +99,32 @@ def pPlanOp (s : String) : Option (Builders.PlanOp × Spec.Written.Call) :=
   | "q" :: n :: ms => match pStr n, allSome (ms.map pTable) with
     | some n, some ms => some (.requires (Builders.requireSeq n ms), .requires (Spec.Written.intendedRequire n ms))
     | _, _ => none
+  | _ => none
+
+/-! ### `layerfile`: layers constructed through the public layer APIs, read at the layer's spec path -/
+
+def pName (s : String) : Option Bytes :=
+  if s.startsWith "x" then (hexDecode (s.drop 1).toString).bind (fun b => if b.isEmpty then none else some b) else none
+
+def pLayerTypes (s : String) : Option LayerTypes :=
+  match s.toList with
+  | [l, b, c] => match pBool l.toString, pBool b.toString, pBool c.toString with
+    | some l, some b, some c => some ⟨l, b, c⟩
+    | _, _, _ => none
+  | _ => none
+
+/-- `<api>~<x name>~<launch build cache>~<metadata table|->`; `c`: cached_layer (cache = 1), `u`: uncached_layer (cache = 0), `t`: trait API -/
+def pLayerCall (s : String) : Option (Builders.LayerCall × Spec.Written.LayerOp) :=
+  match s.splitOn "~" with
+  | [api, n, ty, md] =>
+    let md : Option (Option Table) := if md = "-" then some none else (pTable md).map some
+    match pName n, pLayerTypes ty, md with
+    | some n, some ty, some md =>
+      if api = "c" ∧ ty.cache then some (.cached n ty.launch ty.build md, .cachedKept n ty.launch ty.build md)
+      else if api = "u" ∧ !ty.cache then some (.uncached n ty.launch ty.build md, .uncached n ty.launch ty.build md)
+      else if api = "t" then some (.handle n ty md, .handled n ty md)
+      else none
+    | _, _, _ => none
   | _ => none
 
 def pPair (s : String) : Option (String × String) :=
@@ -196,6 +225,30 @@ def judgeDocs (spec : Schema) (intended : List String) (obs : String) : String :
     | _, _ => "ok"
   go 1 intended parts
 
+/-- the layer files of one layers directory: for every constructed layer name, in order of first use, the document an independent
+reader finds at `<layers>/<name>.toml` must decode to the layer types and metadata constructed under that name; no layer API call
+may fail; the directory holds nothing that belongs to no constructed layer -/
+def judgeLayerFiles (ops : List Spec.Written.LayerOp) (obs : String) : String :=
+  match obs.splitOn " ;; stray=" with
+  | [docs, stray] =>
+    let names := Spec.Written.layerNames ops
+    let parts := docs.splitOn " || "
+    if parts.length ≠ names.length then "fail:the number of documents is not the number of layers constructed" else
+    let rec go : List Bytes → List String → String
+      | n :: ns, o :: os =>
+        let why :=
+          if o = "no-file-written" then "fail:there is no file at the path the CNB spec gives the layer" else
+          match Spec.Written.intendedLayer n none ops with
+          | none => "fail:unparsable-observation"
+          | some m => judge Spec.Cnb.layerContentMetadata m.toVal.render true none o
+        if why = "ok" then go ns os
+        else "fail:layer x" ++ hexEncode n ++ " read at <layers>/<name>.toml: " ++ (why.drop 5).toString
+      | _, _ => "ok"
+    match go names parts with
+    | "ok" => if stray = "-" then "ok" else "fail:the layers directory holds entries that belong to no constructed layer: " ++ stray
+    | v => v
+  | _ => if obs.startsWith "err:" then "fail:a layer API call failed for a valid layer name: " ++ obs else "fail:unparsable-observation"
+
 def handle (fields0 : List String) (obs : String) : String × String :=
   let fields := stripPre fields0
   match fields with
@@ -209,6 +262,20 @@ def handle (fields0 : List String) (obs : String) : String × String :=
         | none => "model-value-ill-typed"))
       let intended := (Spec.Written.intendedLaunchDocs (ops.map (·.2))).map (fun l => l.toVal.render)
       (model, judgeDocs Spec.Cnb.launchToml intended obs)
+  | ["layerfile", ops] =>
+    match allSome ((splitList ops "|").map pLayerCall) with
+    | none => ("bad-op", "bad-op")
+    | some [] => ("bad-op", "bad-op")
+    | some ops =>
+      let calls := ops.map (·.1)
+      let dir := Builders.layerSession calls
+      let docs := (Builders.firstUses (calls.map Builders.LayerCall.name)).map (fun n =>
+        match Builders.dirGet dir (Builders.layerFilePath n) with
+        | some m => (match encode (Gen.S.LayerContentMetadata .optionalTable) m.toVal with
+          | some t => t.render ++ ";rt=1"
+          | none => "model-value-ill-typed")
+        | none => "no-file-written")
+      (joinWith " || " docs ++ " ;; stray=-", judgeLayerFiles (ops.map (·.2)) obs)
   | ["execd", pairs] =>
     match allSome ((splitList pairs ",").map pPair) with
     | none => ("bad-op", "bad-op")
